@@ -1,5 +1,7 @@
-"""C06 bounded clause: Hall-Yarbrough terminates and agrees with DAK within 5 % on the stated common
-range 1.2 <= T_r <= 3, 0.2 <= p_r <= 15 (no loop variant exists, so no proof)."""
+"""C06 bounded clause: Hall-Yarbrough terminates and agrees with DAK within 5 % on the common
+range 1.2 <= T_r <= 3, 0.01 <= p_r <= 15 (no loop variant exists, so no proof).  The low-pressure band 0.01..0.2 is
+where the untouched starting guess y = 0.001 already passes the routine's own |F| <= 0.001 test (the returned value must
+be an iterate that has been improved at least once)."""
 import random
 
 import numpy as np
@@ -26,12 +28,13 @@ def run(ctx):
     from bluebonnet.fluids import gas
 
     quick = ctx.tier == "quick"
-    B = Bounded("grid T_r in [1.2, 3] x p_r in [0.2, 15] (%s) plus %d seeded random points; tolerance 5 %% against the root of the published DAK equation; 1 s per call"
+    B = Bounded("grid T_r in [1.2, 3] x p_r in [0.2, 15] (%s) and x p_r in {0.01, 0.02, 0.05, 0.1, 0.15} plus %d seeded random points (a third of them with p_r < 0.2); tolerance 5 %% against the root of the published DAK equation; 1 s per call"
                 % ("9 x 12" if quick else "25 x 40", 20 if quick else 300))
     rng = random.Random(ctx.seed)
     trs = np.linspace(1.2, 3.0, 9 if quick else 25)
     prs = np.linspace(0.2, 15.0, 12 if quick else 40)
-    pts = [(float(a), float(b)) for a in trs for b in prs] + [(rng.uniform(1.2, 3.0), rng.uniform(0.2, 15.0)) for _ in range(20 if quick else 300)]
+    pts = [(float(a), float(b)) for a in trs for b in prs] + [(float(a), b) for a in trs for b in (0.01, 0.02, 0.05, 0.1, 0.15)]
+    pts += [(rng.uniform(1.2, 3.0), (rng.uniform(0.2, 15.0) if k % 3 else rng.uniform(0.01, 0.2))) for k in range(20 if quick else 300)]
     Tpc, Ppc = -72.0, 650.0
     for t_r, p_r in pts:
         key = (round(t_r, 6), round(p_r, 6))
